@@ -152,6 +152,27 @@ func (w *World) ApplyAPI(call string) error {
 			hv.RecordedTags = "error: " + err.Error()
 		}
 		w.Views = append(w.Views, hv)
+	case "view.data":
+		// a client opens one stream of a held view with a converter: output that is not cached is produced
+		// on demand, from the version of the stream the view shows, and stored
+		vn, rest, _ := strings.Cut(arg, "=")
+		idText, conv, _ := strings.Cut(rest, "/")
+		id, _ := strconv.ParseUint(idText, 10, 64)
+		for _, hv := range w.Views {
+			if hv.Name == vn && !hv.Released {
+				sc, err := hv.View.Stream(id)
+				if err != nil {
+					res = "error: " + err.Error()
+				} else if sc.Stream() == nil {
+					res = "no such stream"
+				} else if d, err := sc.Data(conv); err != nil {
+					res = "error: " + err.Error()
+				} else {
+					res = fmt.Sprintf("%d chunks", len(d))
+				}
+			}
+		}
+		w.Mgr.Status()
 	case "view.release":
 		for _, hv := range w.Views {
 			if hv.Name == arg && !hv.Released {
